@@ -84,6 +84,23 @@ pub fn scratchpad_family() -> Fam {
                 alien: false,
             });
         }
+        // the genuine signature of the counter-1 version replayed on this counter and other content
+        if c > 1 {
+            let genuine1 = rigs::fixtures::ScratchpadMirror::from_real(&rec::pad(OWNER, 1, b"pad-1", OWNER));
+            let mut m = rigs::fixtures::ScratchpadMirror::from_real(&rec::pad(OWNER, c, format!("replayed-{c}").as_bytes(), 0));
+            m.signature = genuine1.signature.clone();
+            let p = m.into_real();
+            let p2 = p.clone();
+            items.push(Item {
+                name: format!("pad(c={c},signature-replayed-from-c=1)"),
+                plain: rec::pad_record(&p),
+                paid: Some(Arc::new(move |pr| rec::paid_pad_record(pr, &p2))),
+                counter: Some(c),
+                entries: BTreeSet::new(),
+                authentic: false,
+                alien: false,
+            });
+        }
         // a validly signed pad of ANOTHER owner presented under this key
         let foreign = rec::pad(6, c, format!("foreign-{c}").as_bytes(), 6);
         let mut plain = rec::pad_record(&foreign);
@@ -239,7 +256,12 @@ pub fn observe(rig: &mut NodeRig, fam: &Fam) -> Held {
     let r = Record { key: fam.key.clone(), value: bytes, publisher: None, expires: None };
     match fam.family {
         Family::Scratchpad => match try_deserialize_record::<Scratchpad>(&r) {
-            Ok(p) => Held::Pad { counter: p.count(), valid: p.is_valid(), owner_ok: rec::pad_key(&p) == fam.key },
+            Ok(p) => {
+                // validity judged independently of the code under test: BLS verification of the signing bytes
+                let m = rigs::fixtures::ScratchpadMirror::from_real(&p);
+                let valid = m.signature.as_ref().map(|sig| p.owner().verify(sig, rigs::fixtures::ScratchpadMirror::signing_bytes(m.counter, &m.encrypted_data))).unwrap_or(false);
+                Held::Pad { counter: p.count(), valid, owner_ok: rec::pad_key(&p) == fam.key }
+            }
             Err(_) => Held::Undecodable,
         },
         Family::Transaction => match try_deserialize_record::<Vec<Transaction>>(&r) {
